@@ -4,7 +4,7 @@ use anyhow::Result;
 use pest::Span;
 
 use crate::{
-    ast::{Block, CompiledItem, Ident},
+    ast::{Block, CompiledItem, Ident, Number},
     instruction,
     parser::{Node, Parser, Rule},
     scope::ScopeReturnStatus,
@@ -25,6 +25,9 @@ pub(crate) struct NumberLoop {
     name: Option<Ident>,
     body: Block,
     name_is_collision: bool,
+    /// The counter has the type of `start + step`: when that is not the type of `start` itself
+    /// (`from 0 to 2 step 0.5`), this is the zero of the counter's type, added to the start value.
+    start_promotion: Option<Number>,
 }
 
 impl Dependencies for NumberLoop {
@@ -95,6 +98,11 @@ impl Compile for NumberLoop {
         let mut val_end = self.val_end.compile(state)?;
 
         result.append(&mut val_start);
+
+        if let Some(ref zero) = self.start_promotion {
+            result.append(&mut zero.compile(state)?);
+            result.push(instruction!(bin_op "+"));
+        }
 
         let end_loop_register = state.poll_loop_register();
 
@@ -406,7 +414,20 @@ impl Parser {
 
         let inclusive = inclusive_or_exclusive.as_rule() == Rule::number_loop_inclusive;
 
+        // the first value of the counter is the start value, which may be of a narrower kind than the counter
+        let start_promotion = if start_ty.get_type_recursively() == step_output_type.get_type_recursively() {
+            None
+        } else {
+            match step_output_type.get_type_recursively() {
+                TypeLayout::Native(NativeType::Float) => Some(Number::Float("0.0".to_owned())),
+                TypeLayout::Native(NativeType::BigInt) => Some(Number::BigInt("0".to_owned())),
+                TypeLayout::Native(NativeType::Int) => Some(Number::Integer("0".to_owned())),
+                _ => None,
+            }
+        };
+
         Ok(NumberLoop {
+            start_promotion,
             body: body.unwrap(),
             name: name.map(|(name, _)| name),
             step: step.map(|(val, _)| val),
